@@ -204,8 +204,8 @@ type FramingNeighbour struct {
 	EOL EOL
 	// Kind is the class used in signatures: "missing-CR", "missing-LF", "CR-replaced-by-LF",
 	// "LF-replaced-by-CR", "CR-replaced-by-SP", "LF-replaced-by-SP", "CR-replaced-by-byte",
-	// "LF-replaced-by-byte" (any other replacement byte), "CRLF-swapped", "CR-doubled",
-	// "LF-doubled".
+	// "LF-replaced-by-byte" (any other replacement byte), "CRLF-swapped", "missing-CRLF",
+	// "CR-doubled", "LF-doubled".
 	Kind string
 	// Detail names the exact change, e.g. "CR-replaced-by-'X'".
 	Detail string
@@ -216,7 +216,7 @@ type FramingNeighbour struct {
 // FramingNeighbours derives, for ONE framing CRLF of a base stream, every neighbour in which
 // its CR or its LF is deleted, doubled, replaced by each byte of repl (a replacement equal to
 // the original byte is skipped; CR is always also replaced by LF and LF by CR), or in which the
-// two are swapped.
+// two are swapped or both deleted.
 func FramingNeighbours(base []byte, e EOL, repl []byte, f func(n *FramingNeighbour)) int {
 	n := 0
 	emit := func(kind, detail string, at int, b []byte) {
@@ -250,5 +250,8 @@ func FramingNeighbours(base []byte, e EOL, repl []byte, f func(n *FramingNeighbo
 	m := append([]byte(nil), base...)
 	m[e.Off], m[e.Off+1] = '\n', '\r'
 	emit("CRLF-swapped", "CRLF-swapped", e.Off, m)
+	// both bytes gone: often another well-formed stream (two header lines merged, a longer
+	// chunk size); the recogniser decides
+	emit("missing-CRLF", "missing-CRLF", e.Off, append(append([]byte(nil), base[:e.Off]...), base[e.Off+2:]...))
 	return n
 }
